@@ -60,7 +60,10 @@ def write_zmx(p):
             L.append('  CONI %s' % num(s['conic'], f))
         g = s.get('glass')
         if g:
-            L.append('  GLAS %s 1 0 %s %s 0 0 0 0 0 0' % (g['name'], num(g['nd'], f), num(g['vd'], f)))
+            if g.get('bare'):
+                L.append('  GLAS %s' % g['name'])          # the short form: the catalogue name alone
+            else:
+                L.append('  GLAS %s 1 0 %s %s 0 0 0 0 0 0' % (g['name'], num(g['nd'], f), num(g['vd'], f)))
         L.append('  DIAM %s 0 0 0 1 ""' % num(s.get('diam', 5.0), f))
     L.append('BLNK ')
     L.append('TOL TOFF 0 0 0 0 0 0 0')
